@@ -270,6 +270,11 @@ func c11Body(x *explore.Ctx, server, deflate bool, nctl int, withClose, withRead
 	// frame on the wire is one a default handler may have sent (pong p1 / pong p2 / close 1000)
 	wire := map[string]int{}
 	for _, m := range d.Control() {
+		if m.Type == wsref.OpClose && len(m.Payload) >= 2 {
+			// the reason text of an echoed close is free: only the status code counts
+			wire[fmt.Sprintf("8:code=%d", int(m.Payload[0])<<8|int(m.Payload[1]))]++
+			continue
+		}
 		wire[fmt.Sprintf("%d:%s", m.Type, m.Payload)]++
 	}
 	for _, a := range ctls {
@@ -285,7 +290,7 @@ func c11Body(x *explore.Ctx, server, deflate bool, nctl int, withClose, withRead
 		delete(wire, k)
 	}
 	for k, n := range wire {
-		okk := withReader && (k == "10:p1" || k == "10:p2" || k == fmt.Sprintf("8:%s", wsref.CloseBody(1000, ""))) && n == 1
+		okk := withReader && (k == "10:p1" || k == "10:p2" || k == "8:code=1000") && n == 1
 		x.Check(okk, key("unexplained-control-frame"), "control frame %q x%d on the wire that no caller and no default handler accounts for", k, n)
 	}
 	// a timed-out WriteControl does not poison the connection: the same thread's next call
